@@ -28,7 +28,7 @@ META = {
                    'sets the label to the requested unit.',
     'bounds': {t: {'parameters': 'every float parameter of 32 classes + HIP-RA-X', 'units': 'every member of the parameter\'s unit enum' if t == 'thorough' else 'up to 4 members of the unit enum per parameter',
                    'outputs': 'every OutputParameter x every member of its unit enum (thorough) / 3 (quick)'} for t in ('quick', 'thorough')},
-    'outside': ['currency conversions that need exchange rates (forex API disabled in the code)', 'the numeric content of pint\'s unit definitions (trusted base: the harness-side conversion uses the same registry)',
+    'outside': ['currency conversions that need exchange rates (EUR, MXN: forex API disabled in the code); the USD/KUSD/MUSD/cents family is inside', 'the numeric content of pint\'s unit definitions (trusted base: the harness-side conversion uses the same registry)',
                 'IEEE rounding (pint factors are doubles; equality is decided up to 1e-9 relative)', 'magnitude heuristics in Reservoir/WellBores (depth x1000, gradient > 1, diameter > 2) - decided in C05/C12 configurations only'],
     'assumptions': ['pint converts correctly between the units it parses'],
     'stubs': ['Parameter.float/int -> proxy-aware (as C07); Parameter.print -> no-op'],
@@ -60,6 +60,14 @@ def enum_members(prm):
 CURRENCY_TYPES = None
 
 
+def _convertible(u, prm):
+    try:
+        pint_convert(1.0, u, (prm.CurrentUnits if hasattr(prm.CurrentUnits, 'value') else prm.PreferredUnits).value)
+        return True
+    except Exception:
+        return False
+
+
 def is_currency(prm):
     return prm.UnitType in [U.Units.CURRENCY, U.Units.CURRENCYFREQUENCY, U.Units.COSTPERMASS, U.Units.ENERGYCOST]
 
@@ -73,10 +81,18 @@ KNOWN_UNUSABLE = {
     ('HeatCapacityUnit', 'J/kg/K'), ('HeatCapacityUnit', 'kJ/kgC'), ('HeatCapacityUnit', 'kJ/km**3C'), ('PercentUnit', '%'),
     ('TemperatureGradientUnit', 'degC/m'), ('TemperatureGradientUnit', 'degF/mi'),
     ('VolumeUnit', 'cm**3'), ('VolumeUnit', 'ft**3'), ('VolumeUnit', 'in**3'), ('VolumeUnit', 'km**3'), ('VolumeUnit', 'mi**3'),
+    # 'cents' is sent to the (disabled) exchange-rate branch although it is USD/100
+    ('EnergyCostUnit', 'cents/kW'), ('EnergyCostUnit', 'cents/kWh'), ('CostPerMassUnit', 'cents/lb'), ('CostPerMassUnit', 'cents/mt'),
+}
+# currency units whose "/..." part differs from the parameter's: the reader strips the suffix and converts nothing (its own comment says so)
+KNOWN_SUFFIX_IGNORED = {
+    ('EnergyCostUnit', 'USD/kWh'), ('EnergyCostUnit', 'USD/MWh'), ('EnergyCostUnit', 'USD/MMBTU'),
+    ('CostPerMassUnit', 'USD/lb'), ('CostPerMassUnit', 'USD/mt'), ('CostPerMassUnit', 'USD/tonne'),
 }
 # parameters whose CurrentUnits stay at the user's unit although the value was converted (temperature spellings: recorded finding)
 KNOWN_STALE_CURRENT_UNITS = {
     ('AngleUnit', 'radians'), ('TemperatureUnit', 'degF'), ('TemperatureUnit', 'degK'),
+    ('CurrencyUnit', 'USD'), ('CurrencyUnit', 'KUSD'), ('CurrencyFrequencyUnit', 'USD/yr'), ('CurrencyFrequencyUnit', 'KUSD/yr'),
     ('TimeUnit', 'day'), ('TimeUnit', 'hr'), ('TimeUnit', 'min'), ('TimeUnit', 'msec'), ('TimeUnit', 'sec'), ('TimeUnit', 'week'), ('TimeUnit', 'yr'),
 }
 
@@ -87,9 +103,13 @@ def run_inputs(unit):
     obj0, model0, mod = c07._make(modn, clsn)
     maxu = 4 if tier == 'quick' else 100
     for pname, p0 in list(obj0.ParameterDict.items()):
-        if not isinstance(p0, P.floatParameter) or is_currency(p0):
+        if not isinstance(p0, P.floatParameter):
             continue
         members = [m for m in enum_members(p0) if m != p0.PreferredUnits and m != p0.CurrentUnits and str(m.value).strip()]   # (an empty spelling cannot be written in a file)
+        if is_currency(p0):
+            # other currencies need exchange rates (the forex call is disabled in the code): only the spellings the registry can convert
+            # without a rate (USD / KUSD / MUSD / cents and their per-year, per-energy, per-mass forms) are in the property's scope
+            members = [m for m in members if _convertible(m.value, p0)]
         if not members:
             continue
         lo, hi = float(p0.Min), float(p0.Max)
@@ -108,8 +128,11 @@ def run_inputs(unit):
             zv = {'v': z3.Real('v')}
             name = p0.Name.strip()
 
-            def concrete(inp, u=u, pname=pname):
-                return concrete_input(modn, clsn, pname, u, float(inp.get('v', 1.0)))
+            def concrete(inp, u=u, pname=pname, clause=None):
+                return concrete_input(modn, clsn, pname, u, float(inp.get('v', 1.0)), clause)
+
+            def cc(clause, concrete=concrete):
+                return lambda inp: concrete(inp, clause=clause)
 
             def fn(u=u, pname=pname):
                 obj, model, _ = c07._make(modn, clsn)
@@ -139,9 +162,10 @@ def run_inputs(unit):
                     c = pr.ctx
                     if k <= 2:
                         harness.reachable(log, c, 1000)
+                    sfid = 'C06-currency-suffix-not-converted' if (type(pref).__name__, u) in KNOWN_SUFFIX_IGNORED else None
                     if exc is not None and exc[0] in ('units', 'uncaught'):
                         fid = 'C06-catalogue-unit-not-usable' if (type(pref).__name__, u) in KNOWN_UNUSABLE else None
-                        harness.discharge(log, c, f'a unit the program lists for this kind of quantity ({u}) is converted, not refused', False, zv, concrete, finding=fid)
+                        harness.discharge(log, c, f'a unit the program lists for this kind of quantity ({u}) is converted, not refused', False, zv, cc('refused'), finding=fid)
                         continue
                     if not harness_ok:
                         log.note(f'{u}: pint cannot parse this spelling harness-side ({herr}) but the reader did not refuse it')
@@ -150,15 +174,18 @@ def run_inputs(unit):
                     et = core.lift(expected)
                     if exc is not None:      # rejected as out of range: only if the converted value really is out of range
                         harness.discharge(log, c, f'"v {u}" is rejected only when the equivalent value in the default unit is out of range',
-                                          z3.Or(et < core.rv(lo) + core.rv(TOL) * (abs(lo) + 1), et > core.rv(hi) - core.rv(TOL) * (abs(hi) + 1)), zv, concrete)
+                                          z3.Or(et < core.rv(lo) + core.rv(TOL) * (abs(lo) + 1), et > core.rv(hi) - core.rv(TOL) * (abs(hi) + 1)), zv, cc('rejected'), finding=sfid)
                         continue
                     stored = prm.value
                     if not isinstance(stored, SymReal):
                         # value left untouched (sentinel / same as current): must be because the converted value equals it
-                        harness.discharge(log, c, f'"v {u}": a value passed over silently equals the value already held', et == core.rv(float(stored)), zv, concrete)
+                        harness.discharge(log, c, f'"v {u}": a value passed over silently equals the value already held', approx(core.rv(float(stored)), et), zv, cc('stored'), finding=sfid)
                         continue
                     harness.discharge(log, c, f'"v {u}" is stored as the equivalent value in the default unit (the computation sees the same physical quantity)',
-                                      approx(stored.t, et), zv, concrete, sample=(k == 1))
+                                      approx(stored.t, et), zv, cc('stored'), sample=(k == 1), finding=sfid)
+                    if sfid:
+                        harness.discharge(log, c, f'"v {u}": the stored value deviates from the equivalent value only by the unconverted "/..." part of the unit (recorded finding): it is the number as written',
+                                          approx(stored.t, z3.Real('v')), zv, cc('unchanged'))
                     # (ii) the (value, CurrentUnits) pair left behind denotes what the user wrote
                     cu = prm.CurrentUnits
                     cuv = cu.value if hasattr(cu, 'value') else str(cu)
@@ -167,65 +194,78 @@ def run_inputs(unit):
                         ok2 = approx(core.lift(denotes), et)
                     except Exception:
                         ok2 = z3.BoolVal(False)
-                    fid = 'C06-current-units-left-at-user-unit' if (type(pref).__name__, u) in KNOWN_STALE_CURRENT_UNITS else None
+                    fid = 'C06-current-units-left-at-user-unit' if (type(pref).__name__, u) in KNOWN_STALE_CURRENT_UNITS else sfid
                     harness.discharge(log, c, f'"v {u}": the (value, current unit) pair kept for the report echo denotes the quantity the user supplied',
-                                      ok2, zv, concrete, finding=fid)
+                                      ok2, zv, cc('pair'), finding=fid)
                     # (iii) the real echo conversion
                     try:
                         with shim.shadow(*c07.param_shadows()):
                             P.ConvertUnitsBack(prm, model) if not prm.UnitsMatch else None
-                        echoed = pint_convert(prm.value, prm.CurrentUnits.value, pref.value)
+                        cu3 = prm.CurrentUnits
+                        echoed = pint_convert(prm.value, cu3.value if hasattr(cu3, 'value') else str(cu3), pref.value)
                         ok3 = approx(core.lift(echoed), et)
                     except Exception:
                         ok3 = z3.BoolVal(False)
-                    harness.discharge(log, c, f'"v {u}": what the report echoes (after ConvertUnitsBack) denotes the quantity the user supplied', ok3, zv, concrete, finding=fid)
+                    harness.discharge(log, c, f'"v {u}": what the report echoes (after ConvertUnitsBack) denotes the quantity the user supplied', ok3, zv, cc('echo'), finding=fid)
             except core.Realize as e:
                 log['inconclusive'].append({'obligation': f'{clsn}/{pname}/{u}', 'why': f'pint realises the magnitude: {str(e)[:60]}'})
             yield log.result()
 
 
-def concrete_input(modn, clsn, pname, u, v):
-    """replay on the real reader: 'v u' vs the harness-side conversion; the echo after ConvertUnitsBack."""
+def concrete_input(modn, clsn, pname, u, v, clause=None):
+    """replay on the real reader: 'v u' vs the harness-side conversion; the echo after ConvertUnitsBack.
+    clause: 'refused' | 'rejected' | 'stored' | 'pair' | 'echo' | 'unchanged' | None (any)."""
     obj, model, _ = c07._make(modn, clsn)
     prm = obj.ParameterDict[pname]
     pref = prm.CurrentUnits if hasattr(prm.CurrentUnits, 'value') else prm.PreferredUnits
     name = prm.Name.strip()
     lo, hi = float(prm.Min), float(prm.Max)
-    # choose a value whose converted image is in range (so that the reader accepts it)
     try:
         want = float(pint_convert(v, u, pref.value))
     except Exception as e:
         want = None
     detail = {'text': f'{v!r} {u}'}
+    bad = {}
     try:
         with contextlib.redirect_stdout(io.StringIO()):
             P.ReadParameter(P.ParameterEntry(Name=name, sValue=f'{v!r} {u}'), prm, model)
     except ValueError as e:
         detail['rejected'] = str(e)[:100]
-        return (want is not None and lo + 1e-7 * (abs(lo) + 1) <= want <= hi - 1e-7 * (abs(hi) + 1)), detail
+        bad['rejected'] = want is not None and lo + 1e-7 * (abs(lo) + 1) <= want <= hi - 1e-7 * (abs(hi) + 1)
+        return (bad['rejected'] if clause in (None, 'rejected') else False), detail
     except Exception as e:
         detail['refused'] = f'{type(e).__name__}: {str(e)[:100]}'
-        return True, detail
+        return clause in (None, 'refused'), detail
     if want is None:
         return False, detail
     stored = prm.value
     detail.update({'stored': stored, 'equivalent in default unit': want, 'current units after reading': str(prm.CurrentUnits)})
-    bad = abs(float(stored) - want) > 1e-7 * (abs(want) + 1)
+    tol = 1e-7 * (abs(want) + 1)
+    bad['stored'] = abs(float(stored) - want) > tol
+    bad['unchanged'] = abs(float(stored) - float(v)) > 1e-7 * (abs(float(v)) + 1)
     try:
         cu = prm.CurrentUnits.value if hasattr(prm.CurrentUnits, 'value') else str(prm.CurrentUnits)
         den = float(pint_convert(float(stored), cu, pref.value))
         detail['(value, current unit) denotes'] = den
-        bad = bad or abs(den - want) > 1e-7 * (abs(want) + 1)
+        bad['pair'] = abs(den - want) > tol
+    except Exception as e:
+        detail['(value, current unit) cannot be interpreted'] = repr(e)[:100]
+        bad['pair'] = True
+    try:
         if not prm.UnitsMatch:
             P.ConvertUnitsBack(prm, model)
-        echoed = float(pint_convert(float(prm.value), prm.CurrentUnits.value, pref.value))
+        cu = prm.CurrentUnits.value if hasattr(prm.CurrentUnits, 'value') else str(prm.CurrentUnits)
+        echoed = float(pint_convert(float(prm.value), cu, pref.value))
         detail['echo denotes'] = echoed
-        detail['echo'] = f'{prm.value} {prm.CurrentUnits.value}'
-        bad = bad or abs(echoed - want) > 1e-7 * (abs(want) + 1)
+        detail['echo'] = f'{prm.value} {cu}'
+        bad['echo'] = abs(echoed - want) > tol
     except Exception as e:
         detail['echo failed'] = repr(e)[:100]
-        bad = True
-    return bad, detail
+        bad['echo'] = True
+    detail['clauses violated'] = sorted(k for k, b in bad.items() if b and k != 'unchanged')
+    if clause is None:
+        return any(b for k, b in bad.items() if k != 'unchanged'), detail
+    return bool(bad.get(clause)), detail
 
 
 # ---- output-units directive -------------------------------------------------------------------------------------------------
@@ -238,7 +278,7 @@ def run_outputs(unit):
         if not isinstance(o0.value, (int, float)) or isinstance(o0.value, bool):
             continue
         e = type(o0.PreferredUnits)
-        if not hasattr(e, '__members__') or o0.UnitType in [U.Units.CURRENCY, U.Units.CURRENCYFREQUENCY, U.Units.COSTPERMASS, U.Units.ENERGYCOST]:
+        if not hasattr(e, '__members__'):
             continue
         for um in [m for m in e if m != o0.CurrentUnits][:maxu]:
             cfg = {'harness': 'output-units', 'class': clsn, 'output': oname, 'unit': um.value}
